@@ -21,6 +21,9 @@ type Net struct {
 	// OnDeliver, if set, observes every datagram at the moment it is put into a
 	// conn's inbox (driver goroutine).
 	OnDeliver func(to *SimConn, from string, data []byte)
+	// FreeDeliver, if set, takes every emitted datagram instead of the kernel's
+	// outbox (Mode R: free-running race mode).
+	FreeDeliver func(p *OutPkt)
 }
 
 func NewNet(s *Sim) *Net { return &Net{s: s, conns: map[string]*SimConn{}} }
@@ -133,6 +136,19 @@ func (n *Net) Deliver(to, from string, data []byte, label string) {
 	}
 }
 
+// Push puts a datagram into the conn's inbox from any goroutine (Mode R).
+func (c *SimConn) Push(from net.Addr, data []byte) {
+	select {
+	case <-c.closed:
+		return
+	default:
+	}
+	select {
+	case c.inbox <- inPkt{data: data, from: from}:
+	default:
+	}
+}
+
 func (c *SimConn) Addr() net.Addr  { return c.addr }
 func (c *SimConn) AddrStr() string { return c.addrStr }
 
@@ -188,6 +204,10 @@ func (c *SimConn) WriteTo(b []byte, addr net.Addr) (int, error) {
 	}
 	s := c.net.s
 	p := &OutPkt{At: s.Now(), Src: c, Dst: addr.String(), Data: append([]byte(nil), b...)}
+	if f := c.net.FreeDeliver; f != nil {
+		f(p) // free-running mode (C14): no driver, no outbox
+		return len(b), nil
+	}
 	s.emit(p)
 	return len(b), nil
 }
